@@ -89,6 +89,7 @@ func classifyPanic(stack string) (inGossamer bool, site string) {
 // RunOne executes one run of world w for property prop on the given tape.
 func RunOne(t *testing.T, w World, prop, tier string, tape *Tape, ix uint64) *Result {
 	k := newK(prop, tier, tape, ix)
+	k.t = t
 	res := &Result{Ix: ix}
 	body := func() {
 		start := time.Now()
